@@ -5,7 +5,12 @@ use std::time::UNIX_EPOCH;
 #[cfg(humphrey_verif)]
 use humsim::time::UNIX_EPOCH;
 
+#[cfg(not(humphrey_verif))]
 use rand_core::{OsRng, RngCore};
+#[cfg(humphrey_verif)]
+use humsim::rand::OsRng;
+#[cfg(humphrey_verif)]
+use rand_core::RngCore;
 
 /// Represents a session, containing a token and an expiration time.
 #[derive(Default, Clone, PartialEq, Eq)]
